@@ -38,7 +38,9 @@ def cases(ctx):
 
 def impl_tree(ctx, text):
     try:
-        return ('ok', treeconv.norm(treeconv.conv(ctx.P.parse(text))))
+        t = ctx.P.parse(text)
+        ctx.last_tree = t
+        return ('ok', treeconv.norm(treeconv.conv(t)))
     except Exception as e:
         return ('rej', '%s: %s' % (type(e).__name__, str(e)[:80]))
 
@@ -125,6 +127,7 @@ def run_case(case, ctx):
         gram.earlier_call(ctx.P, r)
         ctx.count('bases_preceded_by_an_arbitrary_earlier_call')
     b = impl_tree(ctx, base)
+    base_tree = getattr(ctx, 'last_tree', None)
     if b[0] != 'ok':
         ctx.count('bases_rejected(dropped)')
         return
@@ -147,6 +150,11 @@ def run_case(case, ctx):
         ctx.count('rewrite:' + kind)
         ctx.nontriv(base + '\0' + text2)
         g = impl_tree(ctx, text2)
+        if g == b and g[0] == 'ok' and base_tree is not None and not (ctx.last_tree == base_tree):
+            # same neutral tree, but the implementation's own trees compare unequal: something layout-dependent is stored on a node
+            ctx.violation('%s: the rewritten program parses to a tree that is not == the original (a node carries layout-dependent data)' % kind, ('pair', base, text2, kind),
+                          detail={'base': base, 'rewritten': text2, 'base_tree': repr(base_tree)[:300], 'rewritten_tree': repr(ctx.last_tree)[:300]})
+            return
         if g != b:
             what = ('%s: the rewritten program is rejected' % kind) if g[0] != 'ok' else ('%s: the rewritten program parses to a different tree' % kind)
             ctx.violation(what, ('pair', base, text2, kind), detail={'base': base, 'rewritten': text2, 'base_tree': str(b[1])[:500], 'rewritten_outcome': str(g[1])[:500]})
